@@ -846,8 +846,9 @@ theorem buildAny_statePure {cfg : Config} {mode : KeyMode} {f : Nat} {ctx : Ctx}
 /-- forget the memo table -/
 def Acc.erase (a : Acc) : Acc := { a with st := { a.st with memo := [] } }
 
-theorem stepTail_erase (cfg : Config) (inject : Option (List (String × GateDef))) (acc : Acc) (o : Obj) (s : St) :
-    (stepTail cfg inject acc o s).map Acc.erase = stepTail cfg inject acc.erase o { s with memo := [] } := by
+theorem stepTail_erase (cfg : Config) (mode : KeyMode) (inject : Option (List (String × GateDef))) (acc : Acc) (o : Obj)
+    (s : St) :
+    (stepTail cfg mode inject acc o s).map Acc.erase = stepTail cfg .off inject acc.erase o { s with memo := [] } := by
   cases o with
   | val v =>
     cases v <;> simp only [stepTail, throw_eq, Except.map] <;>
@@ -867,41 +868,21 @@ theorem stepTail_erase (cfg : Config) (inject : Option (List (String × GateDef)
     simp only [stepTail]
     by_cases ha : cfg.autoload = true
     · simp only [ha, if_true]
-      cases cfg.imports n <;> rfl
+      cases cfg.imports n with
+      | none => rfl
+      | some gs => simp [Except.map, pure, Except.pure, Acc.erase]
     · simp only [ha]; rfl
 
-theorem stepTail_memo {cfg : Config} {inject : Option (List (String × GateDef))} {acc a1 : Acc} {o : Obj} {s : St}
-    (h : stepTail cfg inject acc o s = .ok a1) : a1.st.memo = s.memo := by
+/-- every step of `build_circuit` keeps the memo table valid: the table survives additions to the gate context, and
+it is emptied when a `usepulses` statement loads gates -/
+theorem stepTail_memoOK {cfg : Config} {inject : Option (List (String × GateDef))} {acc a1 : Acc} {o : Obj} {s : St}
+    (hm : MemoOK cfg s.memo s.gctx) (h : stepTail cfg .new inject acc o s = .ok a1) :
+    MemoOK cfg a1.st.memo a1.st.gctx := by
   cases o with
   | val v =>
     cases v <;> simp only [stepTail, throw_eq] at h <;> first
       | cases h
-      | (obtain ⟨c, _, h2⟩ := bind_ok h; cases h2; rfl)
-  | «macro» m =>
-    simp only [stepTail] at h
-    obtain ⟨m', _, h2⟩ := bind_ok h
-    by_cases hl : (List.lookup m'.name s.gctx).isSome = true
-    · simp [hl, throw_eq, bind, Except.bind] at h2
-    · simp [hl, pure, Except.pure] at h2; rw [← h2]
-  | stmt st => cases h; rfl
-  | case => cases h
-  | usepulses n =>
-    simp only [stepTail] at h
-    by_cases ha : cfg.autoload = true
-    · simp only [ha, if_true] at h
-      cases hi : cfg.imports n with
-      | none => simp [hi, throw_eq] at h
-      | some gs => simp [hi, pure, Except.pure] at h; rw [← h]
-    · simp only [ha] at h; cases h; rfl
-
-theorem stepTail_gctx {cfg : Config} {inject : Option (List (String × GateDef))} {acc a1 : Acc} {o : Obj} {s : St}
-    (h : stepTail cfg inject acc o s = .ok a1) (hu : cfg.autoload = false ∨ ∀ n, o ≠ .usepulses n) :
-    GExt s.gctx a1.st.gctx := by
-  cases o with
-  | val v =>
-    cases v <;> simp only [stepTail, throw_eq] at h <;> first
-      | cases h
-      | (obtain ⟨c, _, h2⟩ := bind_ok h; cases h2; exact GExt.refl _)
+      | (obtain ⟨c, _, h2⟩ := bind_ok h; cases h2; exact hm)
   | «macro» m =>
     simp only [stepTail] at h
     obtain ⟨m', _, h2⟩ := bind_ok h
@@ -909,19 +890,27 @@ theorem stepTail_gctx {cfg : Config} {inject : Option (List (String × GateDef))
     · simp [hl, throw_eq, bind, Except.bind] at h2
     · simp [hl, pure, Except.pure] at h2
       rw [← h2]
+      refine hm.ext ?_
       intro n e hn
       simp only [List.lookup]
       by_cases hnn : n = m'.name
       · subst hnn; simp [hn] at hl
       · have : (n == m'.name) = false := by simpa using hnn
         simp [this, hn]
-  | stmt st => cases h; exact GExt.refl _
+  | stmt st => cases h; exact hm
   | case => cases h
   | usepulses n =>
     simp only [stepTail] at h
-    rcases hu with ha | hu
-    · simp only [ha] at h; cases h; exact GExt.refl _
-    · exact absurd rfl (hu n)
+    by_cases ha : cfg.autoload = true
+    · simp only [ha, if_true] at h
+      cases hi : cfg.imports n with
+      | none => simp [hi, throw_eq] at h
+      | some gs =>
+        simp [hi, pure, Except.pure] at h
+        rw [← h]
+        intro k s0 hk
+        cases hk
+    · simp only [ha] at h; cases h; exact hm
 
 theorem map_erase_congr {r r' : M Acc} (h : r.map Acc.erase = r'.map Acc.erase) :
     (∃ e, r = .error e ∧ r' = .error e) ∨ (∃ a a', r = .ok a ∧ r' = .ok a' ∧ a.erase = a'.erase) := by
@@ -938,13 +927,12 @@ theorem map_erase_congr {r r' : M Acc} (h : r.map Acc.erase = r'.map Acc.erase) 
 theorem circuitLoop_sim (cfg : Config) (inject : Option (List (String × GateDef))) (fuel : Nat) :
     ∀ (cs : List BSx) (acc acc' : Acc), acc.erase = acc'.erase → MemoOK cfg acc.st.memo acc.st.gctx →
     (∀ c ∈ cs, c.depth ≤ fuel) →
-    (cfg.autoload = false ∨ (acc.st.memo = [] ∧ orderOK cs = true) ∨ cs.all notUse = true) →
     (circuitLoop cfg .new inject fuel acc cs).map Acc.erase = (circuitLoop cfg .off inject fuel acc' cs).map Acc.erase := by
   intro cs
   induction cs with
-  | nil => intro acc acc' he _ _ _; simp [circuitLoop, Except.map, pure, Except.pure, he]
+  | nil => intro acc acc' he _ _; simp [circuitLoop, Except.map, pure, Except.pure, he]
   | cons c cs ih =>
-    intro acc acc' he hm hcs hsafe
+    intro acc acc' he hm hcs
     have hctx : acc.ctx = acc'.ctx := by
       have := congrArg Acc.ctx he; simpa [Acc.erase] using this
     have hg : acc.st.gctx = acc'.st.gctx := by
@@ -969,7 +957,8 @@ theorem circuitLoop_sim (cfg : Config) (inject : Option (List (String × GateDef
         rw [hb, hb'] at hsim
         obtain ⟨ho, hgs, hms, hxs⟩ := Sim.ok_elim hsim
         subst ho
-        have htail : (stepTail cfg inject acc o s).map Acc.erase = (stepTail cfg inject acc' o s').map Acc.erase := by
+        have htail : (stepTail cfg .new inject acc o s).map Acc.erase
+            = (stepTail cfg .off inject acc' o s').map Acc.erase := by
           rw [stepTail_erase, stepTail_erase, he]
           have : ({ s with memo := [] } : St) = { s' with memo := [] } := by
             cases s; cases s'; simp_all
@@ -979,43 +968,7 @@ theorem circuitLoop_sim (cfg : Config) (inject : Option (List (String × GateDef
         · rw [h1, h2]
         · rw [h1, h2]
           simp only []
-          have hmemo := stepTail_memo h1
-          -- is this child a `usepulses` that changes the gate table?
-          have huse : (cfg.autoload = false ∨ ∀ n, o ≠ .usepulses n) ∨ s.memo = [] := by
-            rcases hsafe with ha | ⟨hme, hord⟩ | hall
-            · exact Or.inl (Or.inl ha)
-            · by_cases hp : statePure c = true
-              · right
-                rw [buildAny_statePure hp hb]; exact hme
-              · left; right
-                intro n hn
-                subst hn
-                have := buildAny_usepulses hb
-                simp [statePure, this] at hp
-            · left; right
-              intro n hn
-              subst hn
-              have := buildAny_usepulses hb
-              simp only [List.all_cons, Bool.and_eq_true] at hall
-              simp [notUse, this] at hall
-          have hm1 : MemoOK cfg a1.st.memo a1.st.gctx := by
-            rcases huse with hu | hme
-            · rw [hmemo]; exact hms.ext (stepTail_gctx h1 hu)
-            · rw [hmemo, hme]; intro k s0 hk; cases hk
-          apply ih a1 a1' he1 hm1 (fun d hd => hcs d (by simp [hd]))
-          rcases hsafe with ha | ⟨hme, hord⟩ | hall
-          · exact Or.inl ha
-          · simp only [orderOK] at hord
-            by_cases hp : statePure c = true
-            · simp only [hp, if_true] at hord
-              right; left
-              refine ⟨?_, hord⟩
-              rw [hmemo, buildAny_statePure hp hb]; exact hme
-            · simp only [hp] at hord
-              right; right; simpa using hord
-          · right; right
-            simp only [List.all_cons, Bool.and_eq_true] at hall
-            exact hall.2
+          exact ih a1 a1' he1 (stepTail_memoOK hms h1) (fun d hd => hcs d (by simp [hd]))
 
 
 /-! ### Parser-shaped expressions -/
